@@ -605,7 +605,11 @@ def c11_monitor(s, a, rt):
             if cur != "-":
                 pending_initial = False
             continue
-        if op[0] in ("construct", "reconstruct"):
+        if op[0] == "fresh":
+            cur = "-"
+            want_start = eng.rp(eng.POOL[op[1]]) if op[1] is not None else (
+                eng.rp(eng.POOL[[st for st in s.states if st.initial][0].val]) if any(st.initial for st in s.states) else None)
+        if op[0] in ("construct", "reconstruct", "fresh"):
             if cur != "-":
                 if entries:
                     fails.append(f"C11: op {i} constructed over stored state {cur} but something ran: {entries[0]}")
